@@ -2,12 +2,9 @@
     Property theorems only.  The statements are about [combine_paths], the model of
     sciparse::path::combinator::combine, for every hash function standing for SHA-256 and every
     HashMap iteration order (any function returning a permutation). *)
-From Sci Require Import Combine.Model Combine.Spec Combine.Obs Combine.Proofs Combine.ProofsC19 Combine.ProofsC04 Combine.ProofsMeta Combine.ProofsPath Combine.ProofsWF Combine.SpecRules Combine.ProofsSound Combine.ProofsIfaces Combine.ProofsOrder Combine.ProofsComplete Combine.ProofsGraph Combine.ProofsPerm Combine.ProofsTies.
+From Sci Require Import Combine.Model Combine.Spec Combine.Obs Combine.Proofs Combine.ProofsC19 Combine.ProofsC04 Combine.ProofsMeta Combine.ProofsPath Combine.ProofsWF Combine.SpecRules Combine.ProofsSound Combine.ProofsIfaces Combine.ProofsOrder Combine.ProofsComplete Combine.ProofsGraph Combine.ProofsPerm Combine.ProofsTies Combine.ProofsHops.
 From Coq Require Import Permutation Sorted.
 Local Open Scope N_scope.
-
-Definition order_ok (ord_v : vertex -> vinfo -> vinfo) (ord_e : vertex -> vertex -> emap -> emap) : Prop :=
-  (forall v l, Permutation (ord_v v l) l) /\ (forall v w l, Permutation (ord_e v w l) l).
 
 (** Cheapest first.  [path_cost] is read off the returned path itself: hop fields minus
     segments, plus one for a peering crossing, i.e. the number of inter-AS links; the result
@@ -29,6 +26,45 @@ Proof.
   exact (proj2 (combine_sorted_and_loopfree _ _ _ _ _ _ _ _ _ Hv He Hout) cand Hcand Hcost).
 Qed.
 Print Assumptions combine_sorted_partial.
+
+(** The hypothesis of [combine_sorted_partial] in decidable form: when the test
+    [fp_cost_consistentb] succeeds on the candidates, the result is sorted by cost.  The
+    correspondence driver evaluates this test on the model's candidates of every case (a
+    failing test would be reported as a disagreement), so for every input explored the order
+    of the result is covered without a hypothesis. *)
+Theorem combine_sorted_checked :
+  forall Hid Hfp ord_v ord_e src dst cores non_cores out cand,
+    order_ok ord_v ord_e ->
+    combine_paths Hid Hfp ord_v ord_e src dst cores non_cores = Ok out ->
+    candidate_paths Hid Hfp ord_v ord_e src dst cores non_cores = Ok cand ->
+    fp_cost_consistentb cand = true ->
+    StronglySorted N.le (map path_cost out).
+Proof.
+  intros Hid Hfp ord_v ord_e src dst cores non_cores out cand Hord Hout Hcand Hb.
+  apply (combine_sorted_partial Hid Hfp ord_v ord_e src dst cores non_cores out cand Hord Hout Hcand).
+  intros x y Hx Hy Hfp'. unfold fp_cost_consistentb in Hb. rewrite forallb_forall in Hb. specialize (Hb x Hx).
+  rewrite forallb_forall in Hb. specialize (Hb y Hy). apply orb_true_iff in Hb as [Hb|Hb].
+  - apply negb_true_iff, N.eqb_neq in Hb. contradiction.
+  - apply N.eqb_eq in Hb. exact Hb.
+Qed.
+Print Assumptions combine_sorted_checked.
+
+(** "Fewest hops": for well-formed segments the cost the result is sorted by is the number of
+    inter-AS links of the path -- the metadata interface list of every returned path has
+    exactly two interfaces per unit of [path_cost] (so sorting by cost is sorting by the hop
+    count a caller sees, the quantity the oracle [sorted_by_hops] checks on the implementation). *)
+Theorem cost_is_link_count :
+  forall Hid Hfp ord_v ord_e src dst cores non_cores out p m ifs,
+    order_ok ord_v ord_e ->
+    Forall wf_segment (cores ++ non_cores) ->
+    combine_paths Hid Hfp ord_v ord_e src dst cores non_cores = Ok out -> In p out ->
+    sp_meta p = Some m -> md_ifaces m = Some ifs ->
+    N.of_nat (length ifs) = 2 * path_cost p.
+Proof.
+  intros Hid Hfp ord_v ord_e src dst cores non_cores out p m ifs [Hv He] Hwf Hout Hp Hm Hi.
+  exact (combine_ifaces_twice_cost _ _ _ _ _ _ _ _ _ _ _ _ Hv He Hwf Hout Hp Hm Hi).
+Qed.
+Print Assumptions cost_is_link_count.
 
 (** Each route once: no two returned paths have the same source, destination and sequence of
     hop-field (ConsIngress, ConsEgress) pairs.  Holds for every input and every hash function. *)
